@@ -315,7 +315,11 @@ def minimise(world, leg, cfg, ops, signature, budget_s=60):
     while changed and time.monotonic() < deadline:
         changed = False
         for i in range(len(cur)):
-            for simpler in world.shrink_op(cur[i]):
+            try:
+                simpler_ops = list(world.shrink_op(cur[i]))
+            except Exception:
+                simpler_ops = []
+            for simpler in simpler_ops:
                 cand = cur[:i] + [simpler] + cur[i + 1:]
                 if fails(cand):
                     cur = cand
